@@ -92,6 +92,7 @@ def parse_info(line):
         k, v = kv.split("=", 1)
         d[k] = v
     for k in ("real", "blank", "nzbo"):
+        d.setdefault(k, "-")
         d[k] = [int(x) for x in d[k].split(",")] if d.get(k, "-") != "-" else []
     for k in ("order", "entries", "blanks", "closed", "ctx", "proper", "distinct", "unk", "hashinj"):
         d[k] = int(d[k])
@@ -151,6 +152,95 @@ def make_ops(path, case, classes=CLASSES, extra=""):
     for start, ws in case.queries:
         ops.append("q %s %s" % (start, " ".join(ws)))
     return ops
+
+
+def bucket_counts(case):
+    """bucket count of the probing tables of orders 2..N exactly as util::ProbingHashTable::Size computes it:
+    max(entries + 1, (uint64)(multiplier * (float)entries)) in float32 arithmetic"""
+    m32 = lmgen.float_round(case.mult)
+    out = []
+    for n in range(2, case.order + 1):
+        c = len(case.grams[n])
+        prod = lmgen.float_round(m32 * lmgen.float_round(float(c)))
+        out.append(max(c + 1, int(prod)))
+    return out
+
+
+def enum_keys(case, rng, limit=400):
+    """every n-gram of the ARPA and every suffix of it (= reversed prefix: the entries, real or blank, the builder must
+    have created), forward word order; plus a few absent keys"""
+    keys = set()
+    for n, tab in case.grams.items():
+        for g in tab:
+            for j in range(1, len(g) + 1):
+                keys.add(tuple(g[len(g) - j:]))
+    keys = sorted(keys)
+    if len(keys) > limit:
+        keys = rng.sample(keys, limit)
+    extra = []
+    for k in keys[:20]:
+        if len(k) >= 2:
+            extra.append(tuple(reversed(k)))
+    return [k for k in keys] + extra
+
+
+def parse_enum_impl(line):
+    out = {}
+    for seg in line.split(" ## "):
+        seg = seg.strip()
+        if seg:
+            out[seg[0]] = seg[2:].strip().split(" ")
+    return out
+
+
+def compare_enum(case, keys, impl_load_line, info, impl_lines, model_lines):
+    """entry-by-entry comparison of the built probing structure (H3): found, sign bit of prob ("does not extend left"),
+    |prob|, back-off value and its +0/-0 extension bit, rest (RestProbingModel)."""
+    problems = []
+    load = parse_load(impl_load_line)
+    n = 0
+    if info.get("prep") == "0":
+        problems.append({"kind": "represents", "cls": "P", "what": "the model-built probing structure does not represent Table.build "
+                         "(run-time counterexample to probing_build_represents)"})
+    for cls, key in (("P", "pbuild"), ("R", "pbuildrest")):
+        il, ml = load.get(cls), info.get(key)
+        if il is None or ml is None:
+            continue
+        if (il == "ok") != (ml == "ok") or (il != "ok" and il != ml):
+            problems.append({"kind": "build-verdict", "cls": cls, "impl": il, "model": ml})
+    for k, il, ml in zip(keys, impl_lines, model_lines):
+        I, M = parse_enum_impl(il), parse_enum_impl(ml)
+        for cls in "PR":
+            if cls not in I or cls not in M or load.get(cls) != "ok" or M[cls][0] == "error":
+                continue
+            a, b = I[cls], M[cls]
+            n += 1
+            if a[0] != b[0]:
+                problems.append({"kind": "enum-found", "cls": cls, "key": list(k), "impl": a, "model": b})
+                continue
+            if a[0] == "0":
+                continue
+            pbits = int(a[1], 16)
+            neg = pbits >> 31
+            mag = abs(fbits(a[1]))
+            mm = lmgen.frac(b[2])
+            bad = None
+            if neg != int(b[1]):
+                bad = "sign bit of prob (extends-left mark)"
+            elif abs(mag - mm) > Fraction(1, 2 ** 19) * (mm + 1):
+                bad = "probability"
+            elif a[2] != "-":
+                bo, mbo = fbits(a[2]), lmgen.frac(b[3])
+                xr = 0 if int(a[2], 16) == 0x80000000 else 1
+                if abs(bo - mbo) > TWO23 * abs(mbo) + TINY:
+                    bad = "back-off"
+                elif xr != int(b[4]):
+                    bad = "back-off extension bit (+0/-0)"
+                elif abs(fbits(a[3]) - lmgen.frac(b[5])) > Fraction(1, 2 ** 19) * (abs(lmgen.frac(b[5])) + 1):
+                    bad = "rest"
+            if bad:
+                problems.append({"kind": "enum-" + bad, "cls": cls, "key": list(k), "impl": a, "model": b})
+    return problems, n
 
 
 def run_both(hexe, dexe, ops, timeout=300, max_order=6):
